@@ -125,6 +125,9 @@ def zero_vd(T):
         base["e"] = [zero_vd(T["e"][0]) for _ in range(T["n"])]
     elif k == "struct":
         base["f"] = [zero_vd(f["t"]) for f in T["f"]]
+    elif k == "named" and T["id"] in ("RecMap", "RecSl"):
+        base["k"] = "map" if T["id"] == "RecMap" else "slice"
+        base["nil"] = True
     elif k == "named" and T["id"] == "UNest":
         base["k"] = "struct"
         base["f"] = [zero_vd(dict(k="int64")), zero_vd(dict(k="slice", e=[T]))]
